@@ -117,7 +117,15 @@ def run_verus(repo, template, workdir, canary="dup", inplace=(), rlimit=None, ex
         spans = d.get("spans", [])
         prim = [s for s in spans if s.get("is_primary")]
         sec = [s for s in spans if not s.get("is_primary")]
-        pl = prim[0]["line_start"] if prim else None
+        base = os.path.basename(gpath)
+        own = lambda sp: os.path.basename(sp.get("file_name", "")) == base
+        pl = prim[0]["line_start"] if prim and own(prim[0]) else None
+        if pl is None:
+            # the violated clause lives in vstd (e.g. a trait spec): attribute the error to the place in
+            # OUR file that the diagnostic points at ("at this exit", "at this call")
+            alt = [sp for sp in sec if own(sp)]
+            if alt:
+                pl = alt[0]["line_start"]
         f, tag = gen.locate(pl) if pl else (None, "template")
         ent = {
             "message": msg,
@@ -130,6 +138,9 @@ def run_verus(repo, template, workdir, canary="dup", inplace=(), rlimit=None, ex
             "rendered": d.get("rendered", "")[:1500],
         }
         for s in sec:
+            if not own(s):
+                ent["secondary"].append({"line": None, "fn": None, "tag": "vstd", "label": s.get("label"), "text": "%s:%s" % (s.get("file_name"), s.get("line_start"))})
+                continue
             sf, stag = gen.locate(s["line_start"])
             ent["secondary"].append({
                 "line": s["line_start"], "fn": sf.name if sf else None, "tag": stag,
